@@ -24,9 +24,9 @@ CLAIMS = {
    note=TB + "In the model the methods cannot read the object, so the content of the claim rests on the correspondence of histories (stale-memory reads in C would show as differing answers); crypt_ra is tied in by C14.",
    technique="Lean 4 proof by induction over histories + random-history correspondence", ref="DESIGN.md §6 C07"),
  "C01": dict(
-   text="Lean theorems, for arbitrary digest functions: per-method front-end round trip (crypt_m p S = H implies crypt_m p H = H) and hash-part irrelevance (H = S' ++ digest and S' ++ ANY text gives H) for md5crypt, sha256crypt, sha512crypt, sha1crypt, NT, descrypt, bsdicrypt, bcrypt ($2a/$2b/$2x/$2y), yescrypt ($y$, the default method; any text free of '$' may follow the salt's '$'), scrypt ($7$, incl. verify_salt on the result), sunmd5 (every spelling of the salt's end) and bigcrypt (round trips); C01_roundtrip lifts them to the API level (length check, character filter, dispatch to the same table row) for every dispatch table that is TableOk, which C19 decides for all 65 536 configurations (C19_roundtrip_every_config); every result passes the generic setting filter. Model of all 16 front-ends with full-output correspondence (every primitive is executable in Lean); implementation oracle re-hashes every success with its result and with a setting whose hash portion is random.",
-   note=TB + "gost-yescrypt has no round-trip theorem yet: for it the re-hash clause rests on the oracle over the grammar-shaped stream and the exact correspondence.",
-   technique="Lean 4 proof (15 of 16 methods at API level, all configurations) + exact model/implementation correspondence + re-hash oracle", ref="DESIGN.md §6 C01"),
+   text="Lean theorems, for arbitrary digest functions: per-method front-end round trip (crypt_m p S = H implies crypt_m p H = H) and hash-part irrelevance (H = S' ++ digest and S' ++ ANY text gives H) for md5crypt, sha256crypt, sha512crypt, sha1crypt, NT, descrypt, bsdicrypt, bcrypt ($2a/$2b/$2x/$2y), yescrypt ($y$, the default method; any text free of '$' may follow the salt's '$'), scrypt ($7$, incl. verify_salt on the result), sunmd5 (every spelling of the salt's end), gost-yescrypt ($gy$: shape of the inner result, decode64 . encode64 = id, length bound for the wrapper's size pre-check) and bigcrypt (round trips) - all 16 methods; C01_roundtrip lifts them to the API level (length check, character filter, dispatch to the same table row) for every dispatch table that is TableOk, which C19 decides for all 65 536 configurations (C19_roundtrip_every_config); every result passes the generic setting filter. Model of all 16 front-ends with full-output correspondence (every primitive is executable in Lean); implementation oracle re-hashes every success with its result and with a setting whose hash portion is random.",
+   note=TB + "The hash-part clause (anything may follow the salt) is proved for ten methods; for scrypt, sunmd5, gost-yescrypt and bigcrypt only the round trip itself is a theorem and the random-hash-portion clause rests on the oracle and the exact correspondence.",
+   technique="Lean 4 proof (all 16 methods at API level, all configurations) + exact model/implementation correspondence + re-hash oracle", ref="DESIGN.md §6 C01"),
  "C06": dict(
    text="Lean theorem C06_safe for all 16 methods and any digests of the right length: a successful result is passwd-safe printable ASCII, non-empty, shorter than CRYPT_OUTPUT_SIZE, never starts with '*'; alphabets and fixed digest lengths decided over the tables generated from the tree; an independent per-method recogniser written from crypt(5) runs over the stream, every result goes back through crypt_checksalt and crypt_gensalt.",
    note=TB + "Field-structure theorems per method are partial (lengths/alphabets proved, exact decomposition checked by the recogniser).",
